@@ -17,6 +17,8 @@ enum { RQ_SELF, RQ_EXT };
 typedef struct {
     const char *name;
     int quick, parked /* bit0: ES1, bit1: ES2 */, requester;
+    int attr_late; /* callback through the attribute of a unit created NON-migratable;
+                    * migratability is switched on later */
 } cfg_t;
 static const cfg_t cfgs[] = {
     { "ES1 parked, ES2 running: self ABT_thread_migrate", 1, 1, RQ_SELF },
@@ -24,6 +26,10 @@ static const cfg_t cfgs[] = {
     { "ES1 and ES2 parked: self ABT_thread_migrate -> MIGRATION_NA", 1, 3, RQ_SELF },
     { "ES1 parked, ES2 running: X requests ABT_thread_migrate(U)", 0, 1, RQ_EXT },
     { "none parked: self ABT_thread_migrate", 0, 0, RQ_SELF },
+    { "ES2 parked; callback by attribute on a unit created non-migratable, made "
+      "migratable later; self ABT_thread_migrate", 1, 2, RQ_SELF, 1 },
+    { "none parked; callback by attribute, non-migratable at creation, migratable "
+      "later; X requests ABT_thread_migrate(U)", 0, 0, RQ_EXT, 1 },
 };
 
 static const cfg_t *C;
@@ -74,8 +80,25 @@ static void scenario(int cfg)
             OK(ABT_xstream_join(es[i]));
 
     abtmc_window_begin();
-    OK(ABT_thread_create(h_main_pool(es[0]), u_fn, NULL, ABT_THREAD_ATTR_NULL, &U));
-    OK(ABT_thread_set_callback(U, cb, NULL));
+    if (C->attr_late) {
+        ABT_thread_attr at;
+        ABT_bool mig = ABT_TRUE;
+        OK(ABT_thread_attr_create(&at));
+        OK(ABT_thread_attr_set_callback(at, cb, NULL));
+        OK(ABT_thread_attr_set_migratable(at, ABT_FALSE));
+        OK(ABT_thread_create(h_main_pool(es[0]), u_fn, NULL, at, &U));
+        OK(ABT_thread_attr_free(&at));
+        /* a request naming a non-migratable unit is rejected */
+        int rc = ABT_thread_migrate(U);
+        abtmc_check(rc != ABT_SUCCESS, "nonmigratable_accepted",
+                    "ABT_thread_migrate of a non-migratable ULT returned success");
+        OK(ABT_thread_is_migratable(U, &mig));
+        abtmc_check(mig == ABT_FALSE, "harness", "attribute ignored");
+        OK(ABT_thread_set_migratable(U, ABT_TRUE));
+    } else {
+        OK(ABT_thread_create(h_main_pool(es[0]), u_fn, NULL, ABT_THREAD_ATTR_NULL, &U));
+        OK(ABT_thread_set_callback(U, cb, NULL));
+    }
     int x = -1;
     if (C->requester == RQ_EXT)
         x = abtmc_thread_create(x_fn, NULL);
@@ -96,8 +119,12 @@ static void scenario(int cfg)
                     req_rc);
         int ok_rank = rank_after >= 1 && rank_after <= 2 &&
                       !(C->parked & (1 << (rank_after - 1)));
-        abtmc_check(ncb == 1 && ok_rank, "migrated_to_parked_stream",
-                    "%d callbacks; U continued on rank %d (parked mask %d)", ncb,
+        abtmc_check(ncb == 1, "callback_count",
+                    "%d migration callbacks for one performed migration (callback "
+                    "registered %s)", ncb,
+                    C->attr_late ? "through the creation attribute" : "by set_callback");
+        abtmc_check(ok_rank, "migrated_to_parked_stream",
+                    "U continued on rank %d (parked mask %d)", rank_after, C->parked); U continued on rank %d (parked mask %d)", ncb,
                     rank_after, C->parked);
     }
     abtmc_observe("rc%d cb%d rank%d", req_rc, ncb, rank_after);
